@@ -289,6 +289,8 @@ impl<'e> EventLoop<'e> {
             let token = event.get_token();
             if event.readable() || event.writable() {
                 unsafe { self.resume(token) };
+                #[cfg(feature = "verif")]
+                crate::verif::point("event_loop_resumed", token, 0);
             }
         }
         Ok(())
@@ -348,6 +350,12 @@ impl<'e> EventLoop<'e> {
     }
 
     unsafe fn resume(&self, token: u64) {
+        #[cfg(feature = "verif")]
+        crate::verif::point(
+            "event_loop_resume",
+            token,
+            u64::from(COROUTINE_TOKENS.contains(&token)),
+        );
         if COROUTINE_TOKENS.remove(&token).is_none() {
             return;
         }
